@@ -186,11 +186,19 @@ fn check_quantile(c: &OCase, obs: &mut Obs) -> CheckResult {
         if near_int {
             let r = r_int as usize;
             accept.push((s[r], if matches!(m, QuantileMethod::Linear) { 1e-8 * (s[n - 1] - s[0]).abs() + 16.0 * U * s[r].abs() } else { 0.0 }));
-            if r >= 1 {
-                accept.push(pair(r - 1, r, 1.0));
-            }
-            if r + 1 < n {
-                accept.push(pair(r, r + 1, 0.0));
+            // q = a / 2^k without nudge (0, 1, 1/2, 1/4, 3/8 ..): q, 1 - q and (n-1) q are exact in f64, the
+            // index IS the integer r whichever way the library forms it, and every method must return
+            // s[r] - no neighbour is acceptable (in particular q = 0 is the minimum and q = 1 the maximum)
+            let exact_q = c.nudge == 0 && c.qb.is_power_of_two();
+            if !exact_q {
+                if r >= 1 {
+                    accept.push(pair(r - 1, r, 1.0));
+                }
+                if r + 1 < n {
+                    accept.push(pair(r, r + 1, 0.0));
+                }
+            } else {
+                obs.class("exact_integer_index");
             }
             obs.class("near_integer_index");
         } else {
